@@ -11,7 +11,8 @@ RULE = ("S-syn listings with planted runs / repeated blocks (adjacent, separated
         "character position p >= pos test P.match(S, p), emit the first success, continue at its end - and the list "
         "returned by all-matches mode must equal that scan element by element (hence pairwise disjoint, increasing, every "
         "element a match, nothing skipped in any gap or after the last); first-match mode must return exactly its first "
-        "element; asking the same matcher object a second time must give the same lists; addresses must increase numerically. Non-trivial = the scan yields >= 2 hits or there are overlapping "
+        "element; long listings (2 000-30 000 instructions) with a marker planted at known positions incl. the very end must be reported "
+        "exactly; asking the same matcher object a second time must give the same lists; addresses must increase numerically. Non-trivial = the scan yields >= 2 hits or there are overlapping "
         "candidates (a position inside a reported hit also starts a match); distinct = (rule, listing).")
 FLOOR = {"quick": 150, "thorough": 2000}
 ANCHOR_HINTS = ["consumer", "matched_observers"]
@@ -98,13 +99,57 @@ def monitor(driver, doc, text, prep, o):
         ctx.disagreement(case, f"reported addresses are not increasing: {addrs[:8]}")
 
 
+def long_listing_stratum(ctx, ws, n):
+    """Long listings (2 000 - 30 000 instructions) with a marker sequence planted at known positions, also at the very
+    end: all-matches must report exactly the planted addresses (ground truth by construction, independent of the stream)."""
+    from jv import listing as L
+    rng = ctx.rng
+    for _ in range(n):
+        size = rng.choice([2000, 5000, 12000, 30000])
+        body = L.gen_listing(rng, 40, mnems=["mov", "add", "push", "pop", "lea", "cmp", "xor"], start=0x401000)
+        insts, addr, planted = [], 0x401000, []
+        marks = sorted(set([size - 1, size - 2] + [rng.randrange(size) for _ in range(rng.randint(0, 5))])) if rng.random() < 0.8 else [rng.randrange(size)]
+        marks = [m for i, m in enumerate(marks) if i == 0 or m - marks[i - 1] >= 2 or True]
+        markset = set(marks)
+        k = 0
+        while len(insts) < size:
+            src = body[k % len(body)]
+            k += 1
+            if len(insts) in markset:
+                insts.append(L.SInst(addr, "hlt", [], None, None, 1))
+                planted.append(format(addr, "x"))
+                addr += 1
+            else:
+                insts.append(L.SInst(addr, src.mnem, list(src.ops), None, None, src.nbytes))
+                addr += src.nbytes
+        lp = ws.write("long.s", L.render(insts, rng, labels=False))
+        rp = ws.write("long.yaml", "config:\n  mnemonics-full-match: true\npattern:\n  - hlt\n")
+        r = real.match(rp, lp, ret="list", search="all", only_addr=True)
+        rf = real.match(rp, lp, ret="list", search="first", only_addr=True)
+        ctx.ran(2)
+        ctx.event("long_listings_scanned")
+        ctx.case(("long", size, tuple(planted)), True, stratum=f"long listing {size}")
+        if r[0] != "ok" or list(r[1]) != planted:
+            ctx.disagreement({"long_listing": True, "size": size, "planted": planted, "reported": str(r[1])[:300]},
+                             f"listing of {size} instructions with 'hlt' planted at {planted[-4:]} (last address {planted[-1]}): all-matches reported {str(r[1])[:200]}")
+            continue
+        if rf[0] != "ok" or list(rf[1]) != planted[:1]:
+            ctx.disagreement({"long_listing": True, "size": size, "planted": planted}, f"first-match reported {str(rf[1])[:100]}, expected {planted[:1]}")
+            continue
+        ctx.sample("long-listing", {"instructions": size, "planted": planted, "reported": list(r[1])})
+
+
 def run_shard(ctx):
     d = drive.Driver(ctx, feat, flags="random", styles=("runs", "runs", "tiny", "mixed"), judge_model=False, extra=monitor)
     d.loop(2500, 250000)
+    long_listing_stratum(ctx, d.ws, ctx.share(24, 400))
 
 
 def replay(ctx, case):
     ws = real.Workspace()
+    if case.get("long_listing"):
+        long_listing_stratum(ctx, ws, 8)
+        return
     prep = dsl.prep_from_case(ws, case)
     if not prep.verify(ws):
         ctx.inconc("parser disagreement: " + prep.why)
